@@ -25,7 +25,15 @@ MANIFEST = {
             "kernels (write window, counter, yield condition, filename guard, statement-order tables of the loop and of "
             "_process_output) and by exact differential correspondence with the real reconstruct_volumes / predict / "
             "_process_output on a marker model through a real DataLoader.",
-    "note": "Trusted: Lean kernel (+propext, Classical.choice, Quot.sound), the AST translator, torch slice assignment / "
+    "note": "Phase 2: Engine.predict / build_loader / build_batch_sampler / _compute_resolution / write_output_to_h5 are inside the "
+            "model (predictFull, buildBatchSampler, computeResolution, processBatch, writeOutput) with translated source-order "
+            "tables, theorems predict_full_spec (per-volume shapes and header-driven crops, any in-order loader), "
+            "write_roundtrip, predict_write_all_ranks, and an h5 round trip in the correspondence. Notes outside the statement: "
+            "files are named by basename only (write_collision_last_wins); the loop never reads slice_no, so an out-of-order "
+            "loader would permute slices silently (loader_reorder_misorders_slices) - in-order delivery is the explicit "
+            "hypothesis InOrder, probed with 0..2 workers and prefetch factors 1/2/4 on items that finish at random times; a "
+            "zero-slice volume after filtering (key empty-volume-after-filter, evidence notes) is outside the quantifier. "
+            "Trusted: Lean kernel (+propext, Classical.choice, Quot.sound), the AST translator, torch slice assignment / "
             "broadcasting semantics as encoded by writeSlice and zipWith, DataLoader delivering batches in batch-sampler order for "
             "any number of workers (checked on the implementation with 0..2 workers, not proved), harness patching of "
             "communication.get_rank/get_world_size. The network is replaced by an identifiable marker; float arithmetic is exact "
@@ -68,9 +76,10 @@ def fid(p) -> int:
 
 
 class MarkerDataset(torch.utils.data.Dataset):
-    """dataset whose items carry an identifiable marker image of (volume, slice)"""
+    """dataset whose items carry an identifiable marker image of (volume, slice); `data[i]` is the marker of item i
+    (volumes may have different spatial shapes); `recon[v]` = (x, y) header reconstruction size of volume v or None"""
 
-    def __init__(self, layout, data, scales, recon_size=None):
+    def __init__(self, layout, data, scales, recon=None):
         self.ndim = 2
         self.volume_indices = collections.OrderedDict()
         self.items = []
@@ -79,7 +88,7 @@ class MarkerDataset(torch.utils.data.Dataset):
             self.volume_indices[pathlib.Path(fname(v))] = range(off, off + n)
             self.items += [(v, s) for s in range(n)]
             off += n
-        self.data, self.scales, self.recon_size = data, scales, recon_size
+        self.data, self.scales, self.recon = data, scales, recon
 
     def __len__(self):
         return len(self.items)
@@ -91,8 +100,8 @@ class MarkerDataset(torch.utils.data.Dataset):
         item = {"filename": fname(v), "slice_no": s, "scaling_factor": torch.tensor(self.scales[i], dtype=torch.float32),
                 "marker": m.clone(), "target": torch.zeros(h, w), "sensitivity_map": torch.ones(1, h, w, 2),
                 "sampling_mask": torch.ones(1, h, w, 1)}
-        if self.recon_size is not None:
-            item["reconstruction_size"] = (self.recon_size[0], self.recon_size[1], 1)
+        if self.recon is not None:
+            item["reconstruction_size"] = (self.recon[v][0], self.recon[v][1], 1)
         return item
 
 
@@ -139,17 +148,38 @@ def _int_list(t: torch.Tensor):
     return [int(x) for x in r.reshape(-1).tolist()]
 
 
-def run_predict(layout, world, rank, bs, workers, data, scales, res):
-    """the REAL Engine.predict; returns [(fname id, volume tensor)]"""
-    ds = MarkerDataset(layout, data, scales, recon_size=res)
+CROP_ARG = {0: None, 1: "header", 2: "foo", 3: ""}
+
+
+def run_predict(layout, world, rank, bs, workers, data, scales, recon, crop=None):
+    """the REAL Engine.predict; returns the list it returns: [(volume, loss dict, filename)]"""
+    ds = MarkerDataset(layout, data, scales, recon=recon)
     with patched_comm(rank, world), tempfile.TemporaryDirectory() as d:
-        out = engine().predict(ds, pathlib.Path(d), checkpoint=None, num_workers=workers, batch_size=bs,
-                               crop="header" if res is not None else None)
-    return [(fid(o[-1]), o[0]) for o in out]
+        return engine().predict(ds, pathlib.Path(d), checkpoint=None, num_workers=workers, batch_size=bs, crop=crop)
 
 
-def make_data(rng, layout, h, w, cplx):
-    """integer markers identifying (item, pixel); dyadic scale num/den per item; data multiples of den"""
+def read_dir(d: pathlib.Path):
+    """[(file id, key list, dtype, array)] of the h5 files in a directory, by name"""
+    import h5py
+
+    out = []
+    for p in sorted(d.glob("*.h5")):
+        with h5py.File(p, "r") as f:
+            keys = sorted(f.keys())
+            arr = f[keys[0]][()] if keys else None
+        out.append((fid(p), keys, None if arr is None else arr.dtype, arr))
+    return out
+
+
+def _fmt_vol(f, arr):
+    """`f n h w data…` for an array of shape (n, h, w)"""
+    t = torch.as_tensor(np.asarray(arr))
+    return ints([f, t.shape[0], t.shape[1], t.shape[2]] + _int_list(t))
+
+
+def make_data(rng, layout, hs, ws, cplx):
+    """integer markers identifying (item, pixel); dyadic scale num/den per item; data multiples of den.
+    hs/ws = spatial shape per volume.  Returns (list of per-item tensors, nums, dens)."""
     total = sum(layout)
     nums, dens = [], []
     for _ in range(total):
@@ -157,36 +187,35 @@ def make_data(rng, layout, h, w, cplx):
         num = rng.choice([1, 1, 2, 3, 5, 7]) if den == 1 else rng.choice([1, 3, 5])
         nums.append(num)
         dens.append(den)
-    base = torch.arange(total * h * w, dtype=torch.float64).reshape(total, h, w) + 1
-    mult = torch.tensor(dens, dtype=torch.float64).reshape(total, 1, 1)
-    if cplx:
-        m = base * mult
-        data = torch.stack([3 * m, 4 * m], dim=-1)          # |.| = 5 m exactly (float64)
-    else:
-        data = (base * mult).float()
+    data, i, label = [], 0, 1
+    for v, n in enumerate(layout):
+        h, w = hs[v], ws[v]
+        for _s in range(n):
+            base = torch.arange(h * w, dtype=torch.float64).reshape(h, w) + label
+            label += h * w
+            m = base * dens[i]
+            data.append(torch.stack([3 * m, 4 * m], dim=-1) if cplx else m.float())   # |.| = 5 m exactly (float64)
+            i += 1
     return data, nums, dens
 
 
-def expected_volumes(layout, data, nums, dens, res, cplx, vols):
-    """independent reference: slice k of volume v = crop(|marker| * scale)"""
-    out, off = {}, 0
-    offs = []
-    for n in layout:
-        offs.append(off)
-        off += n
-    for v in vols:
+def expected_volumes(layout, data, nums, dens, recon, cplx):
+    """independent reference: slice k of volume v = centre crop (to the volume's header size) of |marker| * scale"""
+    out, i = {}, 0
+    for v, n in enumerate(layout):
         sl = []
-        for k in range(layout[v]):
-            i = offs[v] + k
+        for _k in range(n):
             m = data[i].double()
             if cplx:
                 m = (m ** 2).sum(-1).sqrt()
             m = m * nums[i] / dens[i]
-            if res is not None:
+            if recon is not None:
                 H, W = m.shape
-                y, x = (H - res[0]) // 2, (W - res[1]) // 2
-                m = m[y:y + res[0], x:x + res[1]]
+                rh, rw = recon[v]
+                y, x = (H - rh) // 2, (W - rw) // 2
+                m = m[y:y + rh, x:x + rw]
             sl.append(m)
+            i += 1
         out[v] = torch.stack(sl).unsqueeze(1)
     return out
 
@@ -265,7 +294,8 @@ def correspondence(ctx: Ctx):
     for _ in range(ctx.budget(80, 800)):
         b, h, w = rng.randint(1, 4), rng.randint(3, 6), rng.randint(3, 6)
         cplx = rng.random() < 0.4
-        data, nums, dens = make_data(rng, [b], h, w, cplx)
+        data, nums, dens = make_data(rng, [b], [h], [w], cplx)
+        data = torch.stack(data)
         if rng.random() < 0.3:                      # negative factors too (order of modulus and scaling)
             nums = [-n if rng.random() < 0.5 else n for n in nums]
         r = rng.random()
@@ -339,11 +369,94 @@ def correspondence(ctx: Ctx):
         yield {"line": line("recon", flat_table, *groups), "impl": _catch(impl),
                "nontrivial": (nv >= 2 and multi) or kind != "well-formed", "bucket": "recon/" + kind}
 
-    # ---- the real predict(): sampler -> DataLoader -> reconstruct_volumes
-    n_pred = ctx.budget(200, 1500)
+    # ---- resolution read from the batch's reconstruction_size + _process_output (what the loop does per batch)
+    from direct.nn.mri_models import _compute_resolution
+
+    for _ in range(ctx.budget(60, 600)):
+        b, h, w = rng.randint(1, 4), rng.randint(3, 6), rng.randint(3, 6)
+        data, nums, dens = make_data(rng, [b], [h], [w], False)
+        data = torch.stack(data)
+        key = rng.choice([0, 1, 1, 1, 2, 3])
+        ndim = rng.choice([3, 3, 3, 3, 2, 4])
+        # header sizes per batch element; only element 0 is read by the code
+        recon = [[rng.randint(1, h) for _ in range(b)], [rng.randint(1, w) for _ in range(b)]][:ndim] + \
+                [[1] * b for _ in range(max(0, ndim - 2))]
+        if ndim == 4:
+            recon[2] = [rng.randint(1, w) for _ in range(b)]
+        if rng.random() < 0.1:
+            recon[0][0] = h + 1
+        scale = torch.tensor([n / d for n, d in zip(nums, dens)], dtype=torch.float32)
+
+        def impl(data=data, scale=scale, key=key, recon=recon):
+            res = _compute_resolution(CROP_ARG[key], [torch.tensor(r) for r in recon])
+            out = _process_output(data.clone(), scale, resolution=res, complex_axis=-1)
+            return "ok " + ints(out.shape) + " | " + ints(_int_list(out))
+        yield {"line": line("procbatch", [key], [b, h, w], _int_list(data), nums, dens, *recon), "impl": _catch(impl),
+               "nontrivial": b >= 2 and key == 1, "bucket": f"procbatch/key={CROP_ARG[key]!r}/dims={ndim}"}
+
+    # ---- Engine.build_batch_sampler dispatch
+    from direct.data.samplers import BatchVolumeSampler, ConcatDatasetBatchSampler, DistributedSequentialSampler
+    from direct.engine import Engine
+
+    TYPES = {0: "random", 1: "sequential", 2: "Random", 3: None, 4: ""}
+    for ty in TYPES:
+        for inp in (0, 1, 2):
+            def impl(ty=ty, inp=inp):
+                one = lambda: MarkerDataset([2, 1], [torch.zeros(3, 3)] * 3, [1.0] * 3)   # noqa: E731
+                ds = one() if inp == 0 else [one(), one()] if inp == 1 else [one(), "not a dataset"]
+                kw = {"limit_number_of_volumes": None} if ty == 1 else {}
+                with patched_comm(0, 1):
+                    b = Engine.build_batch_sampler(ds, 2, TYPES[ty], **kw)
+                if isinstance(b, ConcatDatasetBatchSampler):
+                    return "ok 0"
+                if isinstance(b, BatchVolumeSampler) and isinstance(b.sampler, DistributedSequentialSampler):
+                    return "ok 1"
+                return "ok 9"
+            yield {"line": line("bbs", [ty, inp]), "impl": _catch_all(impl), "nontrivial": ty in (0, 1),
+                   "bucket": "bbs/" + repr(TYPES[ty])}
+
+    # ---- write_output_to_h5 on arbitrary tuples (basename collisions, channels, missing directory)
+    from direct.utils.writers import write_output_to_h5
+
+    for _ in range(ctx.budget(40, 400)):
+        nv = rng.randint(0, 4)
+        names = [(rng.randint(0, 2), rng.randint(0, 5)) for _ in range(nv)]
+        if nv >= 2 and rng.random() < 0.4:
+            names[-1] = (names[0][0] + 1, names[0][1])          # same basename in another directory
+        dims = [(rng.randint(1, 4), rng.randint(1, 3), rng.randint(1, 4), rng.randint(1, 4)) for _ in range(nv)]
+        vols, label = [], 1
+        for n, c, h, w in dims:
+            k = n * c * h * w
+            vols.append(torch.arange(label, label + k, dtype=torch.float64).reshape(n, c, h, w))
+            label += k
+        create = int(rng.random() < 0.75)
+        exists = int(rng.random() < 0.5)
+
+        def impl(names=names, vols=vols, create=create, exists=exists):
+            with tempfile.TemporaryDirectory() as d:
+                out_dir = pathlib.Path(d) / "out" / "sub"
+                if exists:
+                    out_dir.mkdir(parents=True)
+                output = [(v, {}, pathlib.Path(f"d{dd}") / fname(b)) for v, (dd, b) in zip(vols, names)]
+                write_output_to_h5(output, out_dir, create_dirs_if_needed=bool(create))
+                files = read_dir(out_dir)
+            for _f, keys, dt, _a in files:
+                if keys != ["reconstruction"] or dt != np.float32:
+                    return "err BadFile"
+            return ("ok " + " | ".join(_fmt_vol(f, a) for f, _k, _d, a in files)).strip()
+        collide = len({b for _, b in names}) < nv
+        yield {"line": line("write", [create, exists], [x for nm in names for x in nm], [x for dm in dims for x in dm],
+                            [int(x) for v in vols for x in v.reshape(-1).tolist()]),
+               "impl": _catch_all(impl), "nontrivial": nv >= 2,
+               "bucket": "write/" + ("no-dir" if not create and not exists else "collision" if collide else "distinct")}
+
+    # ---- the real predict(): sampler -> DataLoader -> reconstruct_volumes [-> write_output_to_h5 -> read back]
+    n_pred = ctx.budget(220, 1600)
     n_workers_cases = ctx.budget(8, 40)
     for c in range(n_pred):
         layout = [rng.randint(1, 9) for _ in range(rng.randint(1, 6))]
+        if rng.random() < 0.25:
+            layout[rng.randrange(len(layout))] = 1               # single-slice volumes
         if ctx.thorough and c < 90:                      # every layout of <= 2 volumes with <= 9 slices once
             layout = [c % 9 + 1] if c < 9 else [(c - 9) // 9 + 1, (c - 9) % 9 + 1]
         world = rng.choice([1, 1, 2, 2, 3, 4])
@@ -353,56 +466,210 @@ def correspondence(ctx: Ctx):
         if c < n_workers_cases:
             workers = 1 + c % 2
             layout = layout[:4]
-        h, w = rng.randint(3, 5), rng.randint(3, 5)
+        nv = len(layout)
+        same_shape = rng.random() < 0.4
+        h0, w0 = rng.randint(3, 5), rng.randint(3, 5)
+        hs = [h0 if same_shape else rng.randint(3, 5) for _ in range(nv)]
+        ws = [w0 if same_shape else rng.randint(3, 5) for _ in range(nv)]
         cplx = rng.random() < 0.3
-        res = None if rng.random() < 0.5 else [rng.randint(1, h), rng.randint(1, w)]
-        if rng.random() < 0.04:
-            res = [h + 1, w]                              # center_crop must reject it
-        data, nums, dens = make_data(rng, layout, h, w, cplx)
+        crop = rng.choice([0, 0, 1, 1, 1, 3]) if rng.random() < 0.96 else 2
+        recon = None
+        if crop == 1 or rng.random() < 0.3:
+            recon = [(rng.randint(1, hs[v]), rng.randint(1, ws[v])) for v in range(nv)]
+            if rng.random() < 0.04:
+                recon[rng.randrange(nv)] = (hs[0] + 3, 1)          # center_crop must reject it
+        write = int(rng.random() < 0.35)
+        data, nums, dens = make_data(rng, layout, hs, ws, cplx)
         scales = [n / d for n, d in zip(nums, dens)]
 
-        def impl(layout=layout, world=world, rank=rank, bs=bs, workers=workers, data=data, scales=scales, res=res):
-            out = run_predict(layout, world, rank, bs, workers, data, scales, res)
-            return ("ok " + " | ".join(ints([f, v.shape[0], v.shape[2], v.shape[3]] + _int_list(v)) for f, v in out)).strip()
+        def impl(layout=layout, world=world, rank=rank, bs=bs, workers=workers, data=data, scales=scales, recon=recon,
+                 crop=crop, write=write):
+            out = run_predict(layout, world, rank, bs, workers, data, scales, recon, CROP_ARG[crop])
+            if not write:
+                return ("ok " + " | ".join(_fmt_vol(fid(o[-1]), o[0][:, 0]) for o in out)).strip()
+            with tempfile.TemporaryDirectory() as d:
+                write_output_to_h5(out, pathlib.Path(d) / "recons", output_key="reconstruction")
+                files = read_dir(pathlib.Path(d) / "recons")
+            for _f, keys, dt, _a in files:
+                if keys != ["reconstruction"] or dt != np.float32:
+                    return "err BadFile"
+            return ("ok " + " | ".join(_fmt_vol(f, a) for f, _k, _d, a in files)).strip()
         split = any(n > bs for n in layout)
-        yield {"line": line("predict", layout, [world, rank, bs], [h, w, int(cplx)], res or [], nums, dens, _int_list(data)),
-               "impl": _catch(impl), "nontrivial": len(layout) >= 2 and split,
-               "bucket": f"predict/world={world}/workers={workers}/" + ("crop" if res else "nocrop")}
+        flat = [int(x) for t in data for x in t.reshape(-1).tolist()]
+        yield {"line": line("predict", layout, [world, rank, bs], [int(cplx), crop, write], hs, ws,
+                            [r[0] for r in recon] if recon else [], [r[1] for r in recon] if recon else [], nums, dens, flat),
+               "impl": _catch_all(impl), "nontrivial": len(layout) >= 2 and split,
+               "bucket": f"predict/world={world}/workers={workers}/crop={CROP_ARG[crop]!r}" + ("/h5" if write else "")
+                         + ("" if same_shape else "/mixed-shapes")}
+
+
+def _catch_all(fn):
+    def run():
+        try:
+            return fn()
+        except Exception as e:  # noqa: BLE001 - canonicalised to the class name
+            return "err " + err_name(e)
+    return run
 
 
 # --------------------------------------------------------------------------------------------------
-def _check_predict(layout, world, bs, workers, h, w, cplx, res, seed):
-    """The property on the real predict() for one configuration, all ranks. Yields (key, what, observed)."""
+def _check_predict(layout, world, bs, workers, hs, ws, cplx, use_crop, seed, write=True):
+    """The property on the real predict() (+ write_output_to_h5 round trip) for one configuration, all ranks.
+    Yields (key, what, observed)."""
     import random
 
+    from direct.utils.writers import write_output_to_h5
+
     rng = random.Random(seed)
-    data, nums, dens = make_data(rng, layout, h, w, cplx)
+    data, nums, dens = make_data(rng, layout, hs, ws, cplx)
     scales = [n / d for n, d in zip(nums, dens)]
-    exp = expected_volumes(layout, data, nums, dens, res, cplx, range(len(layout)))
+    recon = [(rng.randint(1, hs[v]), rng.randint(1, ws[v])) for v in range(len(layout))] if use_crop else None
+    exp = expected_volumes(layout, data, nums, dens, recon, cplx)
     seen = []
-    for rank in range(world):
-        try:
-            out = run_predict(layout, world, rank, bs, workers, data, scales, res)
-        except Exception as e:  # noqa: BLE001
-            yield ("predict-raises", f"predict raises {err_name(e)} on rank {rank} of {world}", {"rank": rank, "err": repr(e)})
-            continue
-        for f, vol in out:
-            seen.append(f)
-            e = exp.get(f)
-            if e is None or tuple(vol.shape) != tuple(e.shape):
-                yield ("predict-volume-shape", f"volume {f}: shape {tuple(vol.shape)}, expected {None if e is None else tuple(e.shape)}",
-                       {"rank": rank, "volume": f})
-            elif not torch.equal(vol.double(), e):
-                bad = [k for k in range(e.shape[0]) if not torch.equal(vol[k].double(), e[k])]
-                yield ("predict-slice-wrong", f"volume {f}: slices {bad} are not model output x scaling factor (cropped)",
-                       {"rank": rank, "volume": f, "bad_slices": bad, "observed": vol[:, 0, 0, 0].tolist(),
-                        "expected": e[:, 0, 0, 0].tolist()})
-    if seen != list(range(len(layout))):
-        missing = [v for v in range(len(layout)) if v not in seen]
-        dup = sorted({v for v in seen if seen.count(v) > 1})
-        key = "predict-volume-missing" if missing else "predict-volume-duplicated" if dup else "predict-volume-order"
-        yield (key, f"volumes yielded over all ranks: {seen} (expected each of 0..{len(layout) - 1} once, in order)",
-               {"seen": seen})
+    with tempfile.TemporaryDirectory() as d:
+        out_dir = pathlib.Path(d) / "recons"
+        for rank in range(world):
+            try:
+                out = run_predict(layout, world, rank, bs, workers, data, scales, recon, "header" if use_crop else None)
+            except Exception as e:  # noqa: BLE001
+                yield ("predict-raises", f"predict raises {err_name(e)} on rank {rank} of {world}", {"rank": rank, "err": repr(e)})
+                continue
+            for vol, _loss, fn in out:
+                f = fid(fn)
+                seen.append(f)
+                e = exp.get(f)
+                if e is None or tuple(vol.shape) != tuple(e.shape):
+                    yield ("predict-volume-shape",
+                           f"volume {f}: shape {tuple(vol.shape)}, expected {None if e is None else tuple(e.shape)}",
+                           {"rank": rank, "volume": f})
+                elif not torch.equal(vol.double(), e):
+                    bad = [k for k in range(e.shape[0]) if not torch.equal(vol[k].double(), e[k])]
+                    yield ("predict-slice-wrong", f"volume {f}: slices {bad} are not model output x scaling factor (cropped)",
+                           {"rank": rank, "volume": f, "bad_slices": bad, "observed": vol[:, 0, 0, 0].tolist(),
+                            "expected": e[:, 0, 0, 0].tolist()})
+            if write:
+                try:
+                    write_output_to_h5(out, out_dir)            # every rank writes into the same directory
+                except Exception as e:  # noqa: BLE001
+                    yield ("write-raises", f"write_output_to_h5 raises {err_name(e)}", {"rank": rank, "err": repr(e)})
+        if seen != list(range(len(layout))):
+            missing = [v for v in range(len(layout)) if v not in seen]
+            dup = sorted({v for v in seen if seen.count(v) > 1})
+            key = "predict-volume-missing" if missing else "predict-volume-duplicated" if dup else "predict-volume-order"
+            yield (key, f"volumes yielded over all ranks: {seen} (expected each of 0..{len(layout) - 1} once, in order)",
+                   {"seen": seen})
+        if write:
+            files = read_dir(out_dir) if out_dir.exists() else []
+            if [f for f, *_ in files] != list(range(len(layout))):
+                yield ("write-file-set", f"files written: {[f for f, *_ in files]} (expected one per volume)", {})
+            for f, keys, dt, arr in files:
+                e = exp.get(f)
+                if keys != ["reconstruction"] or dt != np.float32:
+                    yield ("write-key-dtype", f"file of volume {f}: keys {keys}, dtype {dt}", {"volume": f})
+                elif e is None or arr.shape != tuple(e[:, 0].shape) or not np.array_equal(arr.astype(np.float64), e[:, 0].numpy()):
+                    yield ("write-slice-wrong", f"file of volume {f}: k-th slice is not the k-th processed slice of the volume",
+                           {"volume": f})
+
+
+def _loader_order_bad(workers: int, prefetch, seed: int):
+    """Does a real DataLoader (built as Engine.build_loader builds it; optionally with a prefetch_factor) deliver the
+    batches of the batch sampler in order, when items complete at random times?  Returns the observed order if not."""
+    import random
+
+    from direct.data.samplers import BatchVolumeSampler, DistributedSequentialSampler
+    from direct.engine import Engine
+    from torch.utils.data import DataLoader
+
+    rng = random.Random(seed)
+    layout = [rng.randint(1, 6) for _ in range(rng.randint(2, 5))]
+    ds = SlowDataset(layout, seed)
+    bsamp = BatchVolumeSampler(DistributedSequentialSampler(ds, num_replicas=1, rank=0), batch_size=rng.randint(1, 3))
+    if prefetch is None:
+        loader = Engine.build_loader(ds, batch_sampler=bsamp, num_workers=workers)
+    else:
+        loader = DataLoader(dataset=ds, sampler=None, batch_size=1, batch_sampler=bsamp, num_workers=workers, drop_last=False,
+                            shuffle=False, pin_memory=False, prefetch_factor=prefetch)
+    got = [[int(i) for i in b["index"]] for b in loader]
+    want = [list(map(int, b)) for b in bsamp]
+    return None if got == want else got
+
+
+class SlowDataset(torch.utils.data.Dataset):
+    """items take a random time to load, so that with several workers later batches are ready before earlier ones"""
+
+    def __init__(self, layout, seed):
+        self.volume_indices = collections.OrderedDict()
+        off = 0
+        for v, n in enumerate(layout):
+            self.volume_indices[pathlib.Path(fname(v))] = range(off, off + n)
+            off += n
+        self.n, self.seed = off, seed
+
+    def __len__(self):
+        return self.n
+
+    def __getitem__(self, i):
+        import random
+        import time
+
+        time.sleep(random.Random(self.seed * 1000 + i).choice([0, 0, 0.002, 0.006]))
+        return {"index": i}
+
+
+def _empty_volume_note(ctx: Ctx):
+    """C12/C13/C14 interplay, OUTSIDE the stated quantifiers (volumes have 1..9 slices): a real H5SliceData whose slice
+    filter leaves a volume with zero slices in the middle, through the real samplers and reconstruct_volumes."""
+    import h5py
+    from direct.data.h5_data import H5SliceData
+    from direct.data.samplers import BatchVolumeSampler, DistributedSequentialSampler
+
+    class Wrapped(torch.utils.data.Dataset):
+        def __init__(self, inner):
+            self.inner, self.ndim, self.volume_indices = inner, 2, inner.volume_indices
+
+        def __len__(self):
+            return len(self.inner)
+
+        def __getitem__(self, i):
+            smp = self.inner[i]
+            m = torch.as_tensor(np.asarray(smp["kspace"]).real.astype(np.float32))[0]
+            return {"filename": smp["filename"], "slice_no": smp["slice_no"], "scaling_factor": torch.tensor(1.0),
+                    "marker": m, "target": torch.zeros_like(m), "sensitivity_map": torch.ones(1, *m.shape, 2),
+                    "sampling_mask": torch.ones(1, *m.shape, 1)}
+
+    sizes = [8, 3, 8, 8]
+    report = {"file_slices": sizes, "slice_filter": "slice(4, 8)"}
+    with tempfile.TemporaryDirectory() as d:
+        root = pathlib.Path(d)
+        files = []
+        for v, n in enumerate(sizes):
+            p = root / fname(v)
+            with h5py.File(p, "w") as f:
+                ks = np.zeros((n, 1, 3, 3), dtype=np.complex64)
+                for s in range(n):
+                    ks[s] = 100 * v + s
+                f.create_dataset("kspace", data=ks)
+            files.append(p)
+        ds = Wrapped(H5SliceData(root, filenames_filter=files, slice_data=slice(4, 8)))
+        report["volume_indices"] = [[r.start, r.stop] for r in ds.volume_indices.values()]
+        seq = DistributedSequentialSampler(ds, num_replicas=1, rank=0)
+        for bs in (3, 4, 8):
+            b = BatchVolumeSampler(seq, batch_size=bs)
+            batches = [list(map(int, x)) for x in b]
+            mixed = [x for x in batches if not any(all(i in r for i in x) for r in ds.volume_indices.values())]
+            entry = {"batches": batches, "len": len(b), "mixed_batches": mixed}
+            try:
+                with patched_comm(0, 1), tempfile.TemporaryDirectory() as e:
+                    out = engine().predict(ds, pathlib.Path(e), checkpoint=None, num_workers=0, batch_size=bs, crop=None)
+                entry["predict"] = [[fid(o[-1]), [int(x) for x in o[0][:, 0, 0, 0].tolist()]] for o in out]
+            except Exception as exc:  # noqa: BLE001
+                entry["predict"] = f"raises {err_name(exc)}"
+            report[f"batch_size={bs}"] = entry
+    ctx.notes.append({"empty-volume-after-filter": report, "status": (
+        "NOTE, outside the quantifiers of C13 (volumes with 1..9 slices) and C14 (layouts of C13): a zero-slice volume in the "
+        "middle stalls BatchVolumeSampler's next_value (Lean: C13.bvs_empty_volume_mixes); later batches are cut by batch size "
+        "only, may mix volumes, and reconstruct_volumes then raises ValueError; the empty volume itself is never yielded")})
+    return report
 
 
 def oracle(ctx: Ctx, deep: bool = False):
@@ -412,33 +679,55 @@ def oracle(ctx: Ctx, deep: bool = False):
     nw = ctx.budget(4, 20)
     for c in range(n):
         layout = [rng.randint(1, 9) for _ in range(rng.randint(1, 6))]
+        if rng.random() < 0.25:
+            layout[rng.randrange(len(layout))] = 1
         world = rng.randint(1, 4)
         bs = rng.randint(1, 8)
         workers = 0
         if c < nw:
             workers, layout, world = 1 + c % 2, layout[:3], min(world, 2)
-        h, w = rng.randint(3, 5), rng.randint(3, 5)
+        hs = [rng.randint(3, 5) for _ in layout]
+        ws = [rng.randint(3, 5) for _ in layout]
         cplx = rng.random() < 0.3
-        res = None if rng.random() < 0.5 else [rng.randint(1, h), rng.randint(1, w)]
+        use_crop = rng.random() < 0.5
         seed = rng.randrange(2 ** 30)
-        ctx.count(("predict", tuple(layout), world, bs, workers, h, w, cplx, tuple(res or ()), seed),
+        ctx.count(("predict", tuple(layout), world, bs, workers, tuple(hs), tuple(ws), cplx, use_crop, seed),
                   len(layout) >= 2 and any(x > bs for x in layout),
-                  sample={"layout": layout, "world": world, "bs": bs, "workers": workers, "res": res},
-                  bucket=f"oracle/predict/world={world}/workers={workers}")
+                  sample={"layout": layout, "world": world, "bs": bs, "workers": workers, "hs": hs, "ws": ws, "crop": use_crop},
+                  bucket=f"oracle/predict+h5/world={world}/workers={workers}")
         keys = set()
-        for key, what, obs in _check_predict(layout, world, bs, workers, h, w, cplx, res, seed):
+        for key, what, obs in _check_predict(layout, world, bs, workers, hs, ws, cplx, use_crop, seed):
             if key in keys:
                 continue
             keys.add(key)
             yield Violation(key, what, {"op": "predict", "layout": layout, "world": world, "bs": bs, "workers": workers,
-                                        "h": h, "w": w, "cplx": cplx, "res": res, "seed": seed, "key": key, "observed": obs})
+                                        "hs": hs, "ws": ws, "cplx": cplx, "crop": use_crop, "seed": seed, "key": key,
+                                        "observed": obs})
+    # the in-order guarantee of the loader (assumption `InOrder` of predict_full_spec), probed on torch's DataLoader
+    probes = [(1, None), (2, None)]
+    if ctx.thorough or deep:
+        probes = [(w, p) for w in (0, 1, 2) for p in ((None,) if w == 0 else (None, 1, 2, 4))] * 3
+    for k, (workers, prefetch) in enumerate(probes):
+        seed = rng.randrange(2 ** 20)
+        ctx.count(("loader-order", workers, prefetch, seed), True, bucket=f"oracle/loader-order/workers={workers}/prefetch={prefetch}")
+        got = _loader_order_bad(workers, prefetch, seed)
+        if got is not None:
+            yield Violation("loader-reorders-batches", "DataLoader delivered the batches in another order than the batch sampler",
+                            {"op": "loader", "workers": workers, "prefetch": prefetch, "seed": seed, "observed": got})
+    # C12/C13/C14 interplay outside the quantifier: recorded as a note in the evidence, never a violation
+    try:
+        _empty_volume_note(ctx)
+    except Exception as e:  # noqa: BLE001
+        ctx.notes.append({"empty-volume-after-filter": f"probe failed: {err_name(e)}: {e}"})
 
 
 def replay(rep: dict) -> bool:
-    if rep.get("op") == "predict":
-        try:
+    try:
+        if rep.get("op") == "predict":
             return any(k == rep.get("key") for k, _, _ in _check_predict(
-                rep["layout"], rep["world"], rep["bs"], rep["workers"], rep["h"], rep["w"], rep["cplx"], rep["res"], rep["seed"]))
-        except Exception:  # noqa: BLE001
-            return True
+                rep["layout"], rep["world"], rep["bs"], rep["workers"], rep["hs"], rep["ws"], rep["cplx"], rep["crop"], rep["seed"]))
+        if rep.get("op") == "loader":
+            return _loader_order_bad(rep["workers"], rep["prefetch"], rep["seed"]) is not None
+    except Exception:  # noqa: BLE001
+        return True
     return True
